@@ -148,7 +148,11 @@ func c13Check(cs c13Case) (ok bool, sig, expected, observed string) {
 		if lo.Kind != KOut {
 			o = lo
 		} else {
-			// other entry points used in between must not change what the error names
+			// other entry points used in between must not change what the error names: another directory
+			// with files of the same names is loaded, a string and a file are evaluated
+			decoy := Tree{Dir: "t0", Ext: ".tw", Files: map[string]string{"index.tw": "decoy", "lay.tw": `<d>@reserve("a")</d>`, "comp.tw": "decoy", "other.tw": "decoy"}}
+			decoy.writeKeep()
+			decoy.loadKeep()
 			textwire.EvaluateString("between {{ 1 }}", nil)
 			textwire.EvaluateFile(t.abs("other.tw"), nil)
 			o = render(tpl, "index", nil)
